@@ -47,14 +47,23 @@ DoOutputImplementation(uint32 maxBytes)
    {
       if ((_sendBufByteOffset < 0)||(_sendBufByteOffset >= _sendBufLength))
       {
-         // Try to get the next field from our message
-         uint32 temp = 0;
-         if (msg->FindData(PR_NAME_DATA_CHUNKS, B_ANY_TYPE, ++_sendBufIndex, &_sendBuf, &temp).IsOK())
+         // Try to get the next non-empty chunk from our message.  Note that we go by the number of chunks in the field
+         // rather than stopping at the first chunk FindData() can't return a pointer to, since FindData() has no
+         // data-pointer to return for a zero-length chunk and we don't want such a chunk to hide the chunks after it.
+         const int32 numChunks = (int32) msg->GetNumValuesInName(PR_NAME_DATA_CHUNKS);
+         bool foundChunk = false;
+         while((foundChunk == false)&&(++_sendBufIndex < numChunks))
          {
-            _sendBufByteOffset = 0;
-            _sendBufLength     = temp;
+            uint32 temp = 0;
+            if ((msg->FindData(PR_NAME_DATA_CHUNKS, B_ANY_TYPE, _sendBufIndex, &_sendBuf, &temp).IsOK())&&(temp > 0))
+            {
+               _sendBufByteOffset = 0;
+               _sendBufLength     = temp;
+               foundChunk         = true;
+            }
          }
-         else
+
+         if (foundChunk == false)
          {
             _sendMsgRef.Reset();  // no more data available?  Go to the next message then.
             return DoOutputImplementation(maxBytes);
@@ -265,7 +274,8 @@ uint32 CountedRawDataMessageIOGateway :: GetNumRawBytesInMessage(const MessageRe
       uint32 count = 0;
       const void * junk;
       uint32 temp;
-      for (int32 i=0; messageRef()->FindData(PR_NAME_DATA_CHUNKS, B_ANY_TYPE, i, &junk, &temp).IsOK(); i++) count += temp;
+      const uint32 numChunks = messageRef()->GetNumValuesInName(PR_NAME_DATA_CHUNKS);
+      for (uint32 i=0; i<numChunks; i++) if (messageRef()->FindData(PR_NAME_DATA_CHUNKS, B_ANY_TYPE, i, &junk, &temp).IsOK()) count += temp;  // (FindData() fails for a zero-length chunk, which has no bytes to count anyway)
       return count;
    }
    else return 0;
